@@ -1,6 +1,11 @@
 (* C13_Wire.v — wire glue for C13 (no proofs; exercised by the correspondence).
    input  = fn :: args      (see the table in harness/c13.go, kept in step)
-   output = the function's result, errors collapsed to kind 1 *)
+   output = the function's result, errors collapsed to kind 1
+
+   Go's int is 64 bits wide: the functions that do arithmetic on their int
+   arguments run here in their wrapped versions at w = 64 (nth_w, range_w,
+   sum_w, sum_by_w, mean_w, abs_w), and so do the arithmetic callbacks of the
+   harness (-x, |x|).  C13_Props relates them to the unbounded reading. *)
 
 From Gogu Require Import Base C13_Model.
 
@@ -20,8 +25,8 @@ Definition key_of (c : Z) : Z -> Z :=
   | 0 => fun x => x
   | 1 => fun x => Z.rem x 2        (* Go % truncates toward zero *)
   | 2 => fun _ => 0
-  | 3 => fun x => - x
-  | _ => fun x => Z.abs x
+  | 3 => fun x => wrap 64 (- x)    (* Go -x wraps at math.MinInt *)
+  | _ => fun x => abs_w 64 x
   end.
 
 Definition cmp_of (c : Z) : Z -> Z -> bool :=
@@ -40,6 +45,25 @@ Definition enc_pairs (l : list (Z * Z)) : list Z :=
   Z.of_nat (length l) :: flat_map (fun kv => [fst kv; snd kv]) l.
 
 Definition one (z : Z) : list Z := [z].
+
+(* iteration budget of the bounded Range loops (see C13_Model.range_g); the
+   harness never sends a Range whose result has more than 5000 terms *)
+Definition range_cap : nat := Z.to_nat 20000.
+
+(* all int8 values, ascending *)
+Definition int8s : list Z := map (fun k => Z.of_nat k - 128) (seq 0 256).
+(* run-length encoding of a row of results: (value, count) pairs, flattened.
+   Lossless; a Clamp row (first value, then successive differences) has at most
+   four runs. *)
+Fixpoint rle_from (cur : Z) (cnt : Z) (l : list Z) : list Z :=
+  match l with
+  | [] => [cur; cnt]
+  | x :: l' => if x =? cur then rle_from cur (cnt + 1) l' else cur :: cnt :: rle_from x 1 l'
+  end.
+Definition rle (l : list Z) : list Z :=
+  match l with [] => [] | x :: l' => rle_from x 1 l' end.
+Fixpoint diffs (prev : Z) (l : list Z) : list Z :=
+  match l with [] => [] | x :: l' => (x - prev) :: diffs x l' end.
 
 Definition c13_run (w : list Z) : list Z :=
   match w with
@@ -82,28 +106,66 @@ Definition c13_run (w : list Z) : list Z :=
       | 14 => k_zs (fun f l => [find_max_by f l])
       | 15 => bykey find_min_by_key
       | 16 => bykey find_max_by_key
-      | 17 => zs_x (fun l n => enc_r1 one (nth_go l n))
-      | 18 => zs (fun l => [sum l])
-      | 19 => k_zs (fun f l => [sum_by f l])
-      | 20 => zs (fun l => enc_r1 one (mean l))
+      | 17 => zs_x (fun l n => enc_r1 one (nth_w 64 l n))
+      | 18 => zs (fun l => [sum_w 64 l])
+      | 19 => k_zs (fun f l => [sum_by_w 64 f l])
+      | 20 => zs (fun l => enc_r1 one (mean_w 64 l))
       | 21 => zs (fun l => [sum_w 8 l])
-      | 22 => match a with [x] => [abs_go x] | _ => wire_error end
+      | 22 => match a with [x] => [abs_w 64 x] | _ => wire_error end
       | 23 => match a with [n; lo; hi] => [clamp n lo hi] | _ => wire_error end
       | 24 => match a with [n; lo; hi] => enc_bool (in_range n lo hi) | _ => wire_error end
       | 25 => match a with [x] => [abs_w 8 x] | _ => wire_error end
       | 26 => match a with [c; x; y] => [compare_go (cmp_of c) x y] | _ => wire_error end
       | 27 => match a with [x; y] => enc_bool (less_go x y) | _ => wire_error end
       | 28 => match a with [x; y] => enc_bool (equal_go x y) | _ => wire_error end
-      | 29 => zs (fun l => enc_r1 enc_zs (range_go l))
-      | 30 => zs (fun l => enc_r1 enc_zs (range_right l))
+      | 29 => zs (fun l => enc_r1 enc_zs (range_w 64 range_cap l))
+      | 30 => zs (fun l => enc_r1 enc_zs (range_right_w 64 range_cap l))
+      | 31 => zs (fun l => enc_r1 one (mean_w 8 l))
+      (* whole int8 rows: Clamp(n, lo, hi) / InRange(n, lo, hi) for every int8 n *)
+      | 32 => match a with
+              | [lo; hi] => rle (diffs 0 (map (fun n => clamp n lo hi) int8s))
+              | _ => wire_error end
+      | 33 => match a with
+              | [lo; hi] => rle (map (fun n => if in_range n lo hi then 1 else 0) int8s)
+              | _ => wire_error end
+      (* other instantiations of the generic functions, driven with values on which
+         they are order-/sum-isomorphic to the int instance (harness/c13.go):
+         float64 on quarters k/4 (IEEE arithmetic is exact there; the wire carries
+         4x the value), strings as fixed-width decimal numerals *)
+      | 34 => match a with [_; _; _; _] => zs (fun l => enc_r1 enc_zs (range_w 64 range_cap l)) | _ => wire_error end
+      | 35 => match a with [_; _; _; _] => zs (fun l => enc_r1 enc_zs (range_right_w 64 range_cap l)) | _ => wire_error end
+      | 36 => zs (fun l => [sum_w 64 l])
+      | 37 => zs (fun l => [find_min l])
+      | 38 => zs (fun l => [find_max l])
+      | 39 => zs (fun l => [min_of l])
+      | 40 => zs (fun l => [max_of l])
+      | 41 => zs_x (fun l x => [index_of l x])
+      (* Range / RangeRight at narrow element types: int8, uint8 *)
+      | 42 => zs (fun l => enc_r1 enc_zs (range_w 8 range_cap l))
+      | 43 => zs (fun l => enc_r1 enc_zs (range_right_w 8 range_cap l))
+      | 44 => zs (fun l => enc_r1 enc_zs (range_u 8 range_cap l))
+      | 45 => zs (fun l => enc_r1 enc_zs (range_right_u 8 range_cap l))
       | _ => wire_error
       end
   | [] => wire_error
   end.
 
-Definition c13_agree (w obs : list Z) : bool := zlist_eqb obs (c13_run w).
+(* Every clause of C13 determines its observable uniquely on the clause's
+   domain (C13_Props: each model function is proved equal to / characterised by
+   its definition, the 64-bit versions equal to the unbounded ones where the
+   harness sends them), so on one observation the property holds iff the
+   observation is the model's.  Outside the domain the property says nothing and
+   every well-formed observation is accepted — by [c13_holds] AND by
+   [c13_agree], so that a rewrite that behaves differently only there is not
+   reported: Clamp with lo > hi (the shipped code returns lo for num <= lo and
+   hi otherwise), and the mean of an empty slice (the shipped code panics:
+   integer division by zero). *)
+Definition c13_holds (w obs : list Z) : bool :=
+  match w, obs with
+  | [23; n; lo; hi], [_] => if hi <? lo then true else zlist_eqb obs (c13_run w)
+  | [32; lo; hi], _ :: _ => if hi <? lo then true else zlist_eqb obs (c13_run w)
+  | [20; 0], _ :: _ | [31; 0], _ :: _ => true
+  | _, _ => zlist_eqb obs (c13_run w)
+  end.
 
-(* Every clause of C13 determines its observable uniquely (C13_Props: each
-   model function is proved equal to / characterised by its definition), so on
-   one observation the property holds iff the observation is the model's. *)
-Definition c13_holds (w obs : list Z) : bool := zlist_eqb obs (c13_run w).
+Definition c13_agree (w obs : list Z) : bool := c13_holds w obs.
